@@ -245,6 +245,41 @@ def r16_4(ctx):
     ctx.ob('R16.4', '__init__:count-starts-at-zero', ok, init, None, str(vals))
 
 
+def r16_10(ctx):
+    ctx.rule('R16.10', 'a timed get raises Empty only because time ran out: under `block` every `raise Empty` follows a '
+                       'wait that was given the (remaining) timeout and came back empty-handed -- never a '
+                       'non-blocking look at the pipe', floor=2)
+    m = ctx.model
+    qg = m.func('queues:Queue.get')
+    cfg = qg.cfg
+    emp = [x for x in cfg.where(lambda x: isinstance(x.ast, ast.Raise) and 'Empty' in ast.unparse(x.ast))]
+    q.need(emp, 'Queue.get never raises Empty')
+    n_b = 0
+    for e in emp:
+        g = q.guards_norm(qg, e)
+        if ('block', False) in g:
+            continue            # get_nowait / non-blocking arm
+        n_b += 1
+        # the outcomes that lead straight to this raise (a raise under `a or b` is reached from either test)
+        reasons = []
+        for (a, l) in cfg.pred[e.id]:
+            an = cfg.nodes[a]
+            if an.kind == 'test' and l in ('t', 'f'):
+                reasons.append(q.norm_guard(qg, an.ast, l == 't'))
+            else:
+                reasons.append((an.text(), None))
+        timed = lambda t, p: (p is False and (t.startswith('self._rlock.acquire(block, timeout') or
+                                              t.startswith('self._poll(timeout'))) or \
+            (p is True and t.replace(' ', '') == 'timeout<0')
+        instant = [t for (t, p) in reasons if not timed(t, p)]
+        ok = bool(reasons) and not instant
+        ctx.ob('R16.10', 'Queue.get:timed-Empty-only-after-a-timed-wait#L%d' % (e.line - qg.node.lineno), ok, qg, e,
+               'Empty follows acquire(block, timeout) / _poll(timeout) coming back false' if ok else
+               'a timed get raises Empty after a non-blocking look at the pipe (%s): a consumer that lost the race for '
+               'an item to another consumer gives up long before its timeout' % (instant or sorted(t for t, p in g))[:1])
+    q.need(n_b >= 2, 'Queue.get: raise Empty in the timed arm not found')
+
+
 def r16_6(ctx):
     ctx.rule('R16.6', 'what a queue object does not carry to another process (everything outside __getstate__) is '
                       'process-local and is re-created by the after-fork hook, which is also what a restored and a new '
@@ -301,6 +336,7 @@ def run(ctx):
     from .c13 import r13_2, r13_3
     r13_2(ctx)
     r13_3(ctx)
+    r16_10(ctx)
     r16_6(ctx)
     from .generic import ctor_forwards_params, per_instance_state
     ctor_forwards_params(ctx, 'R16.7', ['queues'], floor=1)
